@@ -244,7 +244,13 @@ func (fr *Frame) freshResults(st *State, sig *types.Signature, prefix string) []
 func (fr *Frame) havocAll(st *State) {
 	fr.top.nepoch++
 	st.epoch = fr.top.nepoch
-	st.heaps = map[string]Term{}
+	keep := map[string]Term{}
+	for hn, h := range st.heaps {
+		if strings.HasPrefix(hn, "R:") {
+			keep[hn] = h // ghost attribute marks survive a havoc
+		}
+	}
+	st.heaps = keep
 	na := fr.ctx.Fresh("alloc", SInt)
 	fr.assume(st, IntCmp(">=", na, st.alloc))
 	st.alloc = na
@@ -370,9 +376,73 @@ func (fr *Frame) applyContract(st *State, fc *FuncContract, sig *types.Signature
 		if mentionsInternal(e.E, fc) {
 			continue
 		}
-		fr.assume(st, fr.evalBool(post, e.E))
+		// "ensures attr(n, x)" / "ensures !attr(n, x)" (possibly guarded: "c ==> attr(n, x)") mark the
+		// object: the callee's effect on a ghost attribute is a store, everything else an assumption
+		rest := []Expr{}
+		for _, p := range SplitConj(e.E) {
+			if !fr.attrMark(st, post, p) {
+				rest = append(rest, p)
+			}
+		}
+		for _, p := range rest {
+			fr.assume(st, fr.evalBool(post, p))
+		}
 	}
 	return res
+}
+
+// attrMark executes an ensures conjunct of the form [cond ==>] [!]attr(name, x) as a store on the
+// attribute heap; returns false when p has another form.
+func (fr *Frame) attrMark(st *State, sc *Scope, p Expr) bool {
+	cond := True
+	if b, ok := p.(*EBin); ok && b.Op == "==>" {
+		if _, ok := attrCall(b.Y); ok {
+			cond = fr.evalBool(sc, b.X)
+			p = b.Y
+		}
+	}
+	val, ok := attrCall(p)
+	if !ok {
+		return false
+	}
+	call := p
+	if u, ok := p.(*EUn); ok {
+		call = u.X
+	}
+	c := call.(*ECall)
+	name := c.Args[0].(*EIdent).Name
+	if _, ok := fr.en.CS.Attrs[name]; !ok {
+		panic(contractErr("attr " + name + " is not declared"))
+	}
+	ref := fr.refOf(fr.evalExpr(sc, c.Args[1]))
+	hn := "R:" + name
+	h := fr.heap(st, hn, ArrSort(SInt, SBool))
+	nv := True
+	if !val {
+		nv = False
+	}
+	fr.setHeap(st, hn, Ite(cond, Store(h, ref, nv), h))
+	return true
+}
+
+// attrCall recognises attr(n, x) (true) and !attr(n, x) (false).
+func attrCall(e Expr) (bool, bool) {
+	val := true
+	if u, ok := e.(*EUn); ok && u.Op == "!" {
+		e, val = u.X, false
+	}
+	c, ok := e.(*ECall)
+	if !ok || len(c.Args) != 2 {
+		return false, false
+	}
+	id, ok := c.Fun.(*EIdent)
+	if !ok || id.Name != "attr" {
+		return false, false
+	}
+	if _, ok := c.Args[0].(*EIdent); !ok {
+		return false, false
+	}
+	return val, true
 }
 
 // ---------------------------------------------------------------------------
@@ -769,7 +839,11 @@ func hookName(n string) string {
 func (fr *Frame) hookRoot() *Frame {
 	f := fr
 	for f.parent != nil {
-		if f.fc == nil || !f.fc.Inline {
+		// expanded callees: those whose contract says "inline" and module functions without a contract
+		if f.fc != nil && !f.fc.Inline {
+			return nil
+		}
+		if f.fc == nil && (f.fn == nil || f.fn.Pkg == nil || !fr.en.inModule(f.fn.Pkg.Pkg.Path())) {
 			return nil
 		}
 		f = f.parent
